@@ -5,6 +5,7 @@ git -C /repo diff --quiet || { echo "/repo has local changes; refusing"; exit 2;
 git -C /repo apply "$sd/patch.diff" || { echo "patch does not apply"; exit 2; }
 cd /verif && ./check $id --tier $tier > /tmp/try_$1_$id.log 2>&1; rc=$?
 git -C /repo checkout -- . 
+git -C /verif checkout -- evidence/$id.json 2>/dev/null    # the evidence of a seeded run is not evidence about the unchanged tree
 echo "seed=$1 check=$id tier=$tier exit=$rc"; grep -c "^VIOLATION" /tmp/try_$1_$id.log | sed 's/^/  VIOLATION lines: /'; grep "^VIOLATION\|^MACHINERY\|^KNOWN" /tmp/try_$1_$id.log | cut -c1-230 | head -4
 rm -f /verif/replays/$id-*.json
 exit 0
